@@ -544,14 +544,14 @@ Qed.
 Lemma r_lastdel_add x m : r_lastdel (r_add x m) = None. Proof. destruct x; reflexivity. Qed.
 Lemma r_lastdel_del x m : r_lastdel (r_del x m) = None. Proof. destruct x; reflexivity. Qed.
 
-Lemma lastdel_inv m0 y m e old : rmon_step m0 y = Some m -> r_lastdel m = Some (e, old) ->
-  exists mask, y = EvCtl CDel e mask /\ alookup ent_eqb e (r_reg m0) = Some old.
+Lemma lastdel_inv m0 y m o e old : rmon_step m0 y = Some m -> r_lastdel m = Some (o, e, old) ->
+  exists mask, y = EvCtl o e mask /\ alookup ent_eqb e (r_reg m0) = Some old.
 Proof.
   intros S Ld.
   destruct y; cbn [rmon_step] in S; ifs S; injection S as <-;
     rewrite ?r_lastdel_add, ?r_lastdel_del in Ld; try (cbn in Ld; discriminate).
   all: try (exfalso; revert Ld; clear; intros Ld; match type of Ld with r_lastdel (r_del ?x _) = _ => rewrite r_lastdel_del in Ld end; discriminate).
-  cbn in Ld. injection Ld as <- <-. eauto.
+  all: cbn in Ld; injection Ld as <- <- <-; eauto.
 Qed.
 
 (* the connect readiness: the SO_ERROR query comes right after the establisher's connect interest was withdrawn *)
@@ -562,13 +562,32 @@ Proof.
   unfold rmon_run. rewrite mon_run_app. cbn [mon_run]. intros Acc.
   destruct (mon_run rmon_step rmon0 earlier) as [m|] eqn:E; [|congruence].
   destruct (rmon_step m (EvSoErr i err)) as [m'|] eqn:S; [|congruence].
-  cbn [rmon_step] in S. destruct (r_lastdel m) as [[[j|j|j|j] old]|] eqn:Ld; try discriminate.
+  cbn [rmon_step] in S. destruct (r_lastdel m) as [[[[| |] [j|j|j|j]] old]|] eqn:Ld; try discriminate.
   destruct ((j =? i) && r_alive m (Es i) && has_out old) eqn:C; [|discriminate].
   apply andb_true_iff in C. destruct C as [C C3]. apply andb_true_iff in C. destruct C as [C1 _]. apply Z.eqb_eq in C1; subst j.
   destruct earlier as [|y rest]; [cbn in E; injection E as <-; discriminate|].
   cbn [mon_run] in E. destruct (mon_run rmon_step rmon0 rest) as [m0|] eqn:E0; [|discriminate].
   destruct (RG_run rest m0 E0) as [_ L0].
-  destruct (lastdel_inv m0 y m (Es i) old E Ld) as [mask [-> Lo]].
+  destruct (lastdel_inv m0 y m CDel (Es i) old E Ld) as [mask [-> Lo]].
+  exists mask, rest. split; [reflexivity|]. exists old. rewrite <- L0. auto.
+Qed.
+
+(* the write readiness: onWrite comes right after the client's write interest was withdrawn (the backlog is sent) *)
+Theorem accepted_write_dispatch later i c earlier :
+  rmon_run (later ++ EvCb (Cl i) KWrite c :: earlier) <> None ->
+  exists mask rest, earlier = EvCtl CMod (Cl i) mask :: rest /\ exists old, reg_of (Cl i) rest = Some old /\ has_out old = true.
+Proof.
+  unfold rmon_run. rewrite mon_run_app. cbn [mon_run]. intros Acc.
+  destruct (mon_run rmon_step rmon0 earlier) as [m|] eqn:E; [|congruence].
+  destruct (rmon_step m (EvCb (Cl i) KWrite c)) as [m'|] eqn:S; [|congruence].
+  cbn [rmon_step] in S. destruct (r_alive m (Cl i)); [|discriminate]. cbn [andb] in S.
+  destruct (r_lastdel m) as [[[[| |] [j|j|j|j]] old]|] eqn:Ld; try discriminate.
+  destruct ((j =? i) && has_out old) eqn:C; [|discriminate].
+  apply andb_true_iff in C. destruct C as [C1 C3]. apply Z.eqb_eq in C1; subst j.
+  destruct earlier as [|y rest]; [cbn in E; injection E as <-; discriminate|].
+  cbn [mon_run] in E. destruct (mon_run rmon_step rmon0 rest) as [m0|] eqn:E0; [|discriminate].
+  destruct (RG_run rest m0 E0) as [_ L0].
+  destruct (lastdel_inv m0 y m CMod (Cl i) old E Ld) as [mask [-> Lo]].
   exists mask, rest. split; [reflexivity|]. exists old. rewrite <- L0. auto.
 Qed.
 
@@ -617,6 +636,11 @@ Theorem model_connect_dispatch fuel ops later i err earlier :
   trace (steps fuel init ops) = later ++ EvSoErr i err :: earlier ->
   exists mask rest, earlier = EvCtl CDel (Es i) mask :: rest /\ exists old, reg_of (Es i) rest = Some old /\ has_out old = true.
 Proof. intros E. apply (accepted_connect_dispatch later i err earlier). rewrite <- E. apply rmon_accepts_model. Qed.
+
+Theorem model_write_dispatch fuel ops later i c earlier :
+  trace (steps fuel init ops) = later ++ EvCb (Cl i) KWrite c :: earlier ->
+  exists mask rest, earlier = EvCtl CMod (Cl i) mask :: rest /\ exists old, reg_of (Cl i) rest = Some old /\ has_out old = true.
+Proof. intros E. apply (accepted_write_dispatch later i c earlier). rewrite <- E. apply rmon_accepts_model. Qed.
 
 Theorem model_failed_io_answered fuel ops l3 w l2 f l1 i :
   trace (steps fuel init ops) = l3 ++ w :: l2 ++ f :: l1 -> fails i f = true -> ccheck w = true ->
